@@ -161,8 +161,8 @@ theorem resolution_ok : Generated.resolution = Generated.funcs.map expectedEntry
 /-- the only set whose iteration order the anchored code observes is the whitelisted one (inside a `raise`) -/
 theorem orderSites_ok : orderSitesOf Generated.setSites = expectedOrderSites := by decide +kernel
 
-/-- `validate_input` refuses exactly the inputs whose number of points differs from the expected one -/
-theorem validateGuard_ok : Generated.validateGuard = expectedValidateGuard := by decide
+-- (the guard of `validate_input` is no longer compared as text: the function is TRANSLATED from source and proved
+--  equal to `validateInput` for all arguments, `GenProps.Src.validate_input_eq`)
 
 /-- no labelling function can look at a coordinate; each validates exactly the size of its table -/
 theorem labScan_ok : labScanOK Generated.labScan Generated.funcs = true := by decide +kernel
